@@ -20,7 +20,11 @@ for name in "$@"; do
   if ! git apply "$src/${name}_demo.patch"; then echo "CONFIRM $name $res demo-patch-does-not-apply"; cd /; git -C /repo worktree remove --force "$wt"; continue; fi
   # how to run the demonstration
   demo_file=$(grep -E '^\+\+\+ b/ruzstd/tests/.*\.rs' "$src/${name}_demo.patch" | head -1 | sed -E 's#.*/tests/(.*)\.rs#\1#')
-  if [ -n "$demo_file" ]; then cmd="cargo test -p ruzstd --offline --test $demo_file"; else cmd="cargo test -p ruzstd --offline --lib demo_"; fi
+  cli_demo=$(grep -E '^\+\+\+ b/cli/tests/.*\.rs' "$src/${name}_demo.patch" | head -1 | sed -E 's#.*/tests/(.*)\.rs#\1#')
+  # a file NAME.cmd next to the patches overrides the command (feature flags, other package)
+  if [ -f "$src/$name.cmd" ]; then cmd=$(cat "$src/$name.cmd")
+  elif [ -n "$cli_demo" ]; then cmd="cargo test -p ruzstd-cli --offline --test $cli_demo"
+  elif [ -n "$demo_file" ]; then cmd="cargo test -p ruzstd --offline --test $demo_file"; else cmd="cargo test -p ruzstd --offline --lib demo_"; fi
   with=$($cmd 2>&1 | grep -E "^test result" | tail -1)
   git apply -R "$src/$name.patch"
   without=$($cmd 2>&1 | grep -E "^test result" | tail -1)
